@@ -8,7 +8,7 @@ import json
 from mc.explore import HarnessError, explore, run_once
 
 COMBINATOR_CASES = [
-    "gather2", "gather3-mixed-fail", "gather2-bothfail", "gather3", "chain-race", "chain-else", "unwrap-nested", "unwrap-race",
+    "gather2", "gather3-mixed-fail", "gather2-bothfail", "gather3", "chain-race", "chain-else", "unwrap-nested", "unwrap-race", "unwrap-double",
 ]
 EXEC_CASES = [
     ("exec-siblings", "{ a b }", {"Query.a": "sync", "Query.b": "sync"}, {}),
@@ -129,6 +129,14 @@ def _combinator(name, ch, traced):
         b.spawn("T1", lambda: f.set_result(g))
         b.spawn("T2", lambda: g.set_result(3))
         expected = [["result", "3"]]
+        get = lambda: outer  # noqa
+    elif name == "unwrap-double":
+        f, g, h = Future(), Future(), Future()
+        outer = TP.unwrap_future(f)
+        b.spawn("T1", lambda: f.set_result(g))
+        b.spawn("T2", lambda: g.set_result(h))
+        b.spawn("T3", lambda: h.set_result(4))
+        expected = [["result", "4"]]
         get = lambda: outer  # noqa
     elif name == "unwrap-race":
         f, g = Future(), Future()
